@@ -93,6 +93,26 @@ fn gen_type(rng: &mut Rng, depth: u32, customs: &[(String, bool)], inline_struct
     }
 }
 
+/// `{"Opt":{"Opt":X}}` -> `{"Opt":X}` throughout a serialized description.
+fn flatten_opt(v: &Value) -> Value {
+    match v {
+        Value::Object(o) => {
+            if o.len() == 1 {
+                if let Some(inner) = o.get("Opt") {
+                    let inner = flatten_opt(inner);
+                    if inner.get("Opt").is_some() && inner.as_object().is_some_and(|i| i.len() == 1) {
+                        return inner;
+                    }
+                    return json!({ "Opt": inner });
+                }
+            }
+            Value::Object(o.iter().map(|(k, v)| (k.clone(), flatten_opt(v))).collect())
+        }
+        Value::Array(a) => Value::Array(a.iter().map(flatten_opt).collect()),
+        other => other.clone(),
+    }
+}
+
 fn has_nested_option(t: &Ty) -> bool {
     match t {
         Ty::Opt(i) => matches!(**i, Ty::Opt(_)) || has_nested_option(i),
@@ -440,6 +460,12 @@ pub fn run(ctx: &Ctx) -> i32 {
             let key = format!("t{}.{}", m.idx, it.name);
             match records.get(&key) {
                 None => push("record-missing".into(), json!({"kind": "describe", "idx": m.idx, "module": m.src, "key": key}), format!("no record {key}"), &mut viol),
+                // Directly nested options: the literal mapping (`??T`) is not a Varlink type and
+                // cannot satisfy the round-trip clause (known finding nested-option-type), so a
+                // description that collapses them into one `?` is accepted as well.
+                Some(got) if got != &it.expect && got == &flatten_opt(&it.expect) => {
+                    stats.class("nested-option-described-as-single-optional");
+                }
                 Some(got) if got != &it.expect => {
                     // what differs: names, types or comments?
                     fn strip(v: &Value) -> Value {
